@@ -1,25 +1,53 @@
 (* Props_C15.v — property C15: an unreadable or vanishing file affects only itself.  Statements only.
-   The fault oracle `fails : stage -> file -> bool` of the nondeterminism record makes the hash of a chunk (or the
-   transform) fail; the model then drops the run of the file's inode at that stage (hasher.rs *_or_log_err -> None,
-   group.rs rehash).  Directory / stat / readlink faults belong to the walk (engine W) and to the runtime half
-   (vlib/props/c15.py with shim/rdshim.c), which also observes warnings, exit status and termination.
+   The fault oracle `fails : stage -> file -> bool` of the nondeterminism record is PER PATH: it makes the hash of a chunk
+   (or the transform) of that path fail.  rehash (K5 repaired) tries the members of a run of one inode in turn, always with
+   the old hash of the first member: members whose own read fails are left out (hasher.rs *_or_log_err -> None, a warning
+   each), the first member that hashes is the representative for itself and the members after it; if every member fails
+   the run disappears (C15_run_semantics).  Directory / stat / readlink faults belong to the walk (engine W) and to the
+   runtime half (vlib/props/c15.py with shim/rdshim.c), which also observes warnings, exit status and termination.
 
-   C15_isolated: for EVERY fault oracle — path-specific ones included —, every order and schedule: a file whose
-   content class has no failing member is reported iff its class satisfies the filter, as exactly its class, i.e.
-   exactly as in a fault-free run; and for all classes no file is listed twice, only scanned files are listed and no
-   class is split among the files reported.
-   C15_sound_under_faults: every reported group still contains only identical files (C01 holds for every oracle).
-   C15_failed_never_duplicate_except_K5 (+ _transform): with an inode-determined oracle a file whose read fails at
-   the prefix (contents, transform) stage is in no reported group with more than one inode that was keyed by that
-   stage: it is never reported as a duplicate of anything.
-   Known finding K5 (not fixed): with a PATH-specific failure on the representative of a hard-link run the other links
-   of the inode are dropped too (C15_K5_witness).
+   C15_readable_not_lost — for EVERY per-path oracle, order and schedule: a file that can itself be read at every stage is
+   never lost because of ANY other failure (of another path of its inode — the former K5 —, or of other files): it is
+   reported as soon as the readable members of its class satisfy an over-replication filter (resp. its class satisfies
+   an under-replication filter); the group that holds it contains every readable member of its class, only members of
+   its class, and passes the final filter; no file is listed twice, only scanned files are listed, no class is split.
+   C15_isolated — corollary: a class none of whose members ever fails is reported iff it qualifies, as exactly the class.
+   C15_sound_under_faults — every reported group still contains only identical files.
+   C15_keyed_has_readable_path (+ _transform) — for every oracle: every member of a reported group with more than one inode
+   shares its inode with a path that was read successfully at the prefix stage (and at the contents stage when the
+   group was keyed there); C15_failed_never_duplicate (+ _transform): with an inode-determined oracle the member itself
+   did not fail, i.e. a file whose read failed is never reported as a duplicate of anything.
+   What remains, stated honestly (C15_unread_path_reported): a path that comes AFTER the representative in its run is
+   never read at that stage, so its own unreadability goes unnoticed and it is reported with the representative's hash
+   (it IS the same inode, so the report is not wrong about contents; it is wrong about readability of that path).
    Not claimed: DESIGN's formulation "= the fault-free run on the scanned files minus the failing ones, hashes
-   included" is false for the code and the model for legitimate reasons (a never-read unreadable file of unique size
-   is reported by --unique / --rf-over 0; the printed hash of a group can depend on which stage last keyed it); the
-   theorems above are the provable content. *)
-From FV Require Import Base ListLib GroupModel GroupProofs GroupProofs2 GroupProofs3 GroupProofs4 GroupProofs5 GroupProofs8 GroupProofs9 GroupWitness.
+   included" (false for code and model: never-read unreadable files, stale hashes). *)
+From FV Require Import Base ListLib GroupModel GroupProofs GroupProofs2 GroupProofs3 GroupProofs4 GroupProofs5 GroupProofs6 GroupProofs8 GroupProofs9 GroupWitness.
 Open Scope N_scope.
+
+Theorem C15_run_semantics :
+  forall (hf : hash_fn) (old : hash) (run : list item),
+    ((forall x, In x run -> hf (snd x) old = None) /\ hash_from hf old run = []) \/
+    (exists pre rep suf h len, run = pre ++ rep :: suf /\ (forall x, In x pre -> hf (snd x) old = None) /\
+        hf (snd rep) old = Some (h, len) /\
+        hash_from hf old run = map (fun y => (h, set_len (snd y) len)) (rep :: suf)).
+Proof. exact hash_from_spec. Qed.
+Print Assumptions C15_run_semantics.
+
+Theorem C15_readable_not_lost :
+  forall (H : list N -> hash) (T : list N -> option (list N)) (c : gcfg) (n : nd) (scanned : list file),
+    wf_nd n -> wf_ids scanned -> wf_len scanned -> wf_paths scanned -> collision_free H c scanned ->
+    transform c = false -> skip_content c = false ->
+    let out := group_files H T c n scanned in
+    (forall f, ok c scanned f -> readable n f ->
+       (qual_r c n scanned f -> exists g, In g out /\ In f (gfiles g)) /\
+       (forall g, In g out -> In f (gfiles g) ->
+          (forall x, ok c scanned x -> readable n x -> fdata x = fdata f -> In x (gfiles g)) /\
+          (forall x, In x (gfiles g) -> ok c scanned x /\ fdata x = fdata f) /\ matches_strictly c g = true)) /\
+    (NoDup (all_files out) /\ forall f, In f (all_files out) -> ok c scanned f) /\
+    (forall g g' f f', In g out -> In g' out -> In f (gfiles g) -> In f' (gfiles g') -> fdata f = fdata f' -> g = g').
+Proof. exact c15_readable. Qed.
+Print Assumptions C15_readable_not_lost.
 
 Theorem C15_isolated :
   forall (H : list N -> hash) (T : list N -> option (list N)) (c : gcfg) (n : nd) (scanned : list file),
@@ -43,7 +71,26 @@ Theorem C15_sound_under_faults :
 Proof. exact c01_sound. Qed.
 Print Assumptions C15_sound_under_faults.
 
-Theorem C15_failed_never_duplicate_except_K5 :
+Theorem C15_keyed_has_readable_path :
+  forall (H : list N -> hash) (T : list N -> option (list N)) (c : gcfg) (n : nd) (scanned : list file),
+    wf_nd n -> transform c = false -> skip_content c = false ->
+    forall g, In g (group_files H T c n scanned) ->
+      one_id (gfiles g) \/
+      ((forall f, In f (gfiles g) -> exists rep, fid rep = fid f /\ fails n StPrefix rep = false) /\
+       (prefix_len_of c (remove_same_files c (group_by_size c (filter (size_ok c) scanned))) <= glen g ->
+        forall f, In f (gfiles g) -> exists rep, fid rep = fid f /\ fails n StContents rep = false)).
+Proof. exact c15_keyed_has_readable_path. Qed.
+Print Assumptions C15_keyed_has_readable_path.
+
+Theorem C15_keyed_has_readable_path_transform :
+  forall (H : list N -> hash) (T : list N -> option (list N)) (c : gcfg) (n : nd) (scanned : list file),
+    wf_nd n -> transform c = true ->
+    forall g f, In g (group_files H T c n scanned) -> In f (gfiles g) ->
+      exists rep, fid rep = fid f /\ fails n StTransform rep = false.
+Proof. exact c15_transform_has_readable_path. Qed.
+Print Assumptions C15_keyed_has_readable_path_transform.
+
+Theorem C15_failed_never_duplicate :
   forall (H : list N -> hash) (T : list N -> option (list N)) (c : gcfg) (n : nd) (scanned : list file),
     wf_nd n -> inode_determined n -> transform c = false -> skip_content c = false ->
     forall g, In g (group_files H T c n scanned) ->
@@ -52,23 +99,30 @@ Theorem C15_failed_never_duplicate_except_K5 :
        (prefix_len_of c (remove_same_files c (group_by_size c (filter (size_ok c) scanned))) <= glen g ->
         forall f, In f (gfiles g) -> fails n StContents f = false)).
 Proof. exact c15_failed_not_duplicate. Qed.
-Print Assumptions C15_failed_never_duplicate_except_K5.
+Print Assumptions C15_failed_never_duplicate.
 
-Theorem C15_failed_never_reported_transform_except_K5 :
+Theorem C15_failed_never_reported_transform :
   forall (H : list N -> hash) (T : list N -> option (list N)) (c : gcfg) (n : nd) (scanned : list file),
     wf_nd n -> inode_determined n -> transform c = true ->
     forall g f, In g (group_files H T c n scanned) -> In f (gfiles g) -> fails n StTransform f = false.
 Proof. exact c15_failed_not_reported_transform. Qed.
-Print Assumptions C15_failed_never_reported_transform_except_K5.
+Print Assumptions C15_failed_never_reported_transform.
 
-Theorem C15_K5_witness :
-  exists (H : list N -> hash) (T : list N -> option (list N)) (c : gcfg) (n : nd) (a b x : file),
-    wf_nd n /\ wf_ids [a; b; x] /\ fid a = fid b /\ fpath a <> fpath b /\
-    (forall st f, fails n st f = true -> fpath f = fpath a) /\ (forall st, fails n st b = false) /\
-    group_files H T c n [a; b; x] = [] /\
-    exists g f, In g (group_files H T c (nd_of_mode 0) [b; x]) /\ In f (gfiles g) /\ fpath f = fpath b.
-Proof. exact k5_witness. Qed.
-Print Assumptions C15_K5_witness.
+(* The former K5 witness, now a regression instance: /a, /b hard links, /c a copy, only the PATH /a unreadable (not
+   inode-determined); /a is tried first and left out, /b and /c are reported. *)
+Example C15_K5_regression :
+  wf_nd k5_nd /\ fid k5_a = fid k5_b /\ ~ inode_determined k5_nd /\
+  (forall st f, fails k5_nd st f = true -> fpath f = fpath k5_a) /\
+  shows (group_files toyH idT k5_cfg k5_nd [k5_a; k5_b; k5_c]) = [(3, [[[47]; [98]]; [[47]; [99]]])].
+Proof.
+  split; [exact k5_wf_nd|]. split; [reflexivity|]. split; [exact k5_not_inode_determined|]. split; [exact k5_only_a|exact k5_regression].
+Qed.
+(* What remains: with the links in the order /b, /a the unreadable /a comes after the representative, is never read and
+   is reported. *)
+Example C15_unread_path_reported :
+  wf_nd k5_nd_rev /\ fails k5_nd_rev StPrefix k5_a = true /\
+  shows (group_files toyH idT k5_cfg k5_nd_rev [k5_a; k5_b; k5_c]) = [(3, [[[47]; [97]]; [[47]; [98]]; [[47]; [99]]])].
+Proof. split; [exact k5_wf_nd_rev|]. split; [reflexivity|exact k5_unread_path_reported]. Qed.
 
 (* Non-vacuity: two copies (class X) and two other copies (class Y) one of which cannot be read (inode-determined
    oracle: inode 4 fails everywhere).  Class X has no failing member and is reported; of class Y only one readable
@@ -78,11 +132,12 @@ Definition c15_files : list file :=
 Definition c15_nd : nd := mknd (fun _ _ l => isort loc_leb l) (fun _ l => l) (fun _ f => snd (fid f) =? 4).
 Example C15_instance :
   wf_nd c15_nd /\ inode_determined c15_nd /\ clean ex_cfg c15_nd c15_files (mkf 97 1 6 [1;2;3;4;5;6]) /\
+  readable c15_nd (mkf 100 5 6 [1;2;3;4;5;7]) /\
   fails c15_nd StPrefix (mkf 99 4 6 [1;2;3;4;5;7]) = true /\
   shows (group_files toyH idT ex_cfg c15_nd c15_files) = [(6, [[[47]; [97]]; [[47]; [98]]])].
 Proof.
   split; [split; intros; cbn; [apply isort_perm|apply Permutation.Permutation_refl]|].
   split; [intros a b st E; cbn [c15_nd fails]; rewrite E; reflexivity|].
-  split; [|split; [reflexivity|vm_compute; reflexivity]].
+  split; [|split; [intros st; reflexivity|split; [reflexivity|vm_compute; reflexivity]]].
   intros x st [Hx _] E. destruct Hx as [<-|[<-|[<-|[<-|[]]]]]; try reflexivity; cbn in E; discriminate.
 Qed.
